@@ -114,6 +114,12 @@ func (ex *Exec) staticCall(st *State, fr *Frame, callee *ssa.Function, binds []*
 		ex.inlineCall(st, fr, body, ics, subst, binds, args, instr, k)
 		return
 	}
+	if cs == nil && len(body.Blocks) > 0 && strings.HasPrefix(funcPkgPath(body), modulePath) && !hasLoop(body) && !ex.onInlineStack(fr, body) {
+		// a module function without contract and without loops (typically a helper extracted by a refactoring):
+		// its body is executed in place instead of rejecting the caller
+		cs = &FuncSpec{Key: key, Inline: true, Loops: map[int]*LoopSpec{}, Opaque: map[string]bool{}}
+		ex.warnings = append(ex.warnings, "call of "+shortKey(key)+" (no contract, no loops) was inlined")
+	}
 	if cs == nil {
 		panic(oos("call to " + key + " which has no contract"))
 	}
@@ -130,6 +136,41 @@ func (ex *Exec) staticCall(st *State, fr *Frame, callee *ssa.Function, binds []*
 	res := ex.callContract(st, fr, cs, body.Signature, body, args, instr)
 	ex.env.subst = saved
 	k(st, res)
+}
+
+// hasLoop: does the function's control-flow graph contain a cycle?
+func hasLoop(fn *ssa.Function) bool {
+	state := map[*ssa.BasicBlock]int{}
+	var dfs func(b *ssa.BasicBlock) bool
+	dfs = func(b *ssa.BasicBlock) bool {
+		state[b] = 1
+		for _, s := range b.Succs {
+			if state[s] == 1 {
+				return true
+			}
+			if state[s] == 0 && dfs(s) {
+				return true
+			}
+		}
+		state[b] = 2
+		return false
+	}
+	return len(fn.Blocks) > 0 && dfs(fn.Blocks[0])
+}
+
+// onInlineStack: is fn already being executed in place on this call chain (recursion)?
+func (ex *Exec) onInlineStack(fr *Frame, fn *ssa.Function) bool {
+	n := 0
+	for f := fr; f != nil; f = f.parent {
+		if f.fn == fn {
+			return true
+		}
+		n++
+		if n > 6 {
+			return true
+		}
+	}
+	return false
 }
 
 func (ex *Exec) inlineCall(st *State, fr *Frame, body *ssa.Function, cs *FuncSpec, subst map[*types.TypeParam]types.Type, binds []*Val, args []*Val, instr ssa.Instruction, k func(st *State, res *Val)) {
@@ -1829,6 +1870,21 @@ func (ex *Exec) intrinsic(st *State, fr *Frame, key string, callee *ssa.Function
 		r := ex.fresh("sprintf", ex.strSort())
 		st.assume(ex.strLenFacts(r))
 		k(st, scalar(r))
+		return true
+	case "fmt.Println", "fmt.Printf", "fmt.Print", "fmt.Fprintf", "fmt.Fprintln", "fmt.Fprint",
+		"log.Printf", "log.Println", "log.Print":
+		// diagnostics output: no effect on the program state that contracts speak about
+		ex.trusted["fmt/log printing has no effect on the verified state"] = true
+		callee2 := callee
+		if callee2.Signature.Results().Len() == 0 {
+			k(st, nil)
+			return true
+		}
+		var rs []*Val
+		for i := 0; i < callee2.Signature.Results().Len(); i++ {
+			rs = append(rs, ex.freshVal(callee2.Signature.Results().At(i).Type(), "ret_print"))
+		}
+		k(st, tupleOrSingle(rs))
 		return true
 	case "errors.New":
 		e := ex.newRef(st, "err", "error")
